@@ -118,6 +118,8 @@ def wdetect(name, prop, tier="quick"):
     t0 = time.time()
     try:
         rc, out = sh("git -C %s apply %s" % (wt, d / "patch.diff"))
+        if rc != 0:        # the seed was written against an earlier /repo HEAD (a later fix: commit touched its context)
+            rc, out = sh("patch -p1 -F3 --no-backup-if-mismatch < %s" % (d / "patch.diff"), cwd=wt)
         assert rc == 0, out
         rc, out = sh("./check %s --tier %s" % (prop, tier), cwd=VERIF, timeout=7200,
                      env={"AOTOOLS_VERIF": "1", "AOTOOLS_REPO": wt, "AOVERIF_EVIDENCE_DIR": wt + "/.ev"})
